@@ -39,6 +39,9 @@ class install(repo_ops.install):
     def add_data(self, domain):
         # error checking?
         dirpath = self.tmp_write_path
+        # what an interrupted earlier run left in the staging dir must not
+        # become part of this package
+        shutil.rmtree(dirpath, ignore_errors=True)
         ensure_dirs(dirpath, mode=0o755, minimal=True)
         update_mtime(self.repo.location)
         rewrite = self.repo._metadata_rewrites
